@@ -28,7 +28,8 @@ ASSUMPTIONS = ["'results depend only on the network and the arguments of that ca
                "the diagnosed net's element AND result tables are compared (diagnostics are documented to work on copies)",
                "results are compared in canonical JSON form; log output is not compared"]
 REACH_PROBES = ["real_function_registered", "diagnose_after_other_client_registered", "diagnose_after_other_client_options",
-                "diagnose_after_own_earlier_options", "diagnose_on_nonconverging_net", "isolated_reference_ran"]
+                "diagnose_after_own_earlier_options", "diagnose_on_nonconverging_net", "isolated_reference_ran",
+                "power_flow_inside_diagnostic_failed_as_planned"]
 
 OPTION_VALUES = {"overload_scaling_factor": [0.001, 0.5, 0.01], "nominal_voltage_tolerance": [0.3, 0.05],
                  "min_r_ohm": [0.001, 1.0], "max_x_ohm": [100., 0.1], "capacitance_scaling_factor": [0.01, 0.5],
@@ -119,6 +120,10 @@ def generate(rng, idx, tier):
             ol.append({"op": "diagnose", "client": c, "net": rng.randrange(n_nets),
                        "options": {k: rng.choice(OPTION_VALUES[k]) for k in keys},
                        "report": rng.choice([None, None, "compact"]),
+                       # fault plan at the run= seam: which of the power flows inside the diagnostic functions
+                       # fail, and how (documented non-convergence / an unexpected error)
+                       "run_fail": None if rng.random() < 0.75 else
+                       {"at": sorted(rng.sample(range(1, 14), rng.choice([1, 1, 2]))), "exc": rng.choice(["lnc", "value"])},
                        # the fresh-process reference costs a fork (0.3-1 s under load in this VM): sampled
                        "iso": rng.random() < (0.15 if light else 0.3)})
         else:
@@ -248,7 +253,46 @@ def construct_from_fresh_objects(add_default, registrations, Probe):
     return d
 
 
-def _isolated_call(add_default, registrations, net_before, options):
+_RETURNED = []
+
+
+def _canon_result(res):
+    """canonical form of a result dict (the run= callable echoed by probe functions is not data)"""
+    def strip(x):
+        if isinstance(x, dict):
+            return {k_: strip(v_) for k_, v_ in x.items() if k_ != "run"}
+        return x
+    return oracles.canon(strip(res)) if isinstance(res, dict) else oracles.canon(res)
+
+
+def make_run(plan):
+    """run= callable of one diagnose_network call: the real runpp, failing at the planned invocations (a new object
+    per call and per reference, so that every execution of the same call sees the same fault sequence)"""
+    import pandapower as pp
+    from pandapower.auxiliary import LoadflowNotConverged
+    state = {"n": 0}
+
+    def run(net, **kw):
+        state["n"] += 1
+        if state["n"] in plan["at"]:
+            if plan["exc"] == "lnc":
+                raise LoadflowNotConverged(f"ppsim: planned failure of power flow #{state['n']}")
+            raise ValueError(f"ppsim: planned error in power flow #{state['n']}")
+        return pp.runpp(net, **kw)
+    run.__name__ = "runpp"
+    run.state = state
+    return run
+
+
+def _call_kwargs(options, run_fail):
+    kw = dict(options)
+    if run_fail:
+        kw["run"] = make_run(run_fail)
+    return kw
+
+
+
+def _isolated_call(add_default, registrations, net_before, options, run_fail=None):
     """the same call as the only call of a fresh forked process"""
     r, w = os.pipe()
     pid = core.REAL_FORK()
@@ -260,8 +304,8 @@ def _isolated_call(add_default, registrations, net_before, options):
             Probe = make_probe_class()
             d = construct(add_default, registrations, Probe)
             try:
-                res = d.diagnose_network(net_before, report_style=None, **options)
-                out = {"result": oracles.canon(res), "errors": sorted(d.diag_errors)}
+                res = d.diagnose_network(net_before, report_style=None, **_call_kwargs(options, run_fail))
+                out = {"result": _canon_result(res), "errors": sorted(d.diag_errors)}
             except Exception as e:
                 out = {"raised": type(e).__name__}
             with os.fdopen(w, "wb") as fh:
@@ -279,6 +323,7 @@ def _isolated_call(add_default, registrations, net_before, options):
 
 def execute(ep, ctx):
     fresh_modules()
+    del _RETURNED[:]
     default_diagnostic_functions = PRISTINE["functions"]
     default_argument_values = PRISTINE["kwargs"]
     Probe = make_probe_class()
@@ -367,12 +412,28 @@ def _exec_diagnose(d, m, c, net, op, i, ctx, global_hist, Probe):
         ctx.probe("diagnose_after_own_earlier_options")
     net_before = copy.deepcopy(net)
     snap = oracles.snapshot(net, with_results=True)
+    run_fail = op.get("run_fail")
+    if run_fail:
+        ctx.fault_configured("run-callback-fail")
     try:
-        res = d.diagnose_network(net, report_style=op["report"], **options)
-        live = {"result": oracles.canon(res), "errors": sorted(d.diag_errors)}
+        ckw = _call_kwargs(options, run_fail)
+        res = d.diagnose_network(net, report_style=op["report"], **ckw)
+        live = {"result": _canon_result(res), "errors": sorted(d.diag_errors)}
     except Exception as e:
         res = None
         live = {"raised": type(e).__name__}
+    if run_fail and any(k_ <= ckw["run"].state["n"] for k_ in run_fail["at"]):
+        ctx.fault_fired("run-callback-fail")
+        ctx.probe("power_flow_inside_diagnostic_failed_as_planned")
+    # earlier returned result dicts are the caller's: a later call must not change them
+    for (ci_, j_, obj_, snap_) in _RETURNED:
+        if _canon_result(obj_) != snap_:
+            ctx.violation("C30|returned result of an earlier call changed",
+                          f"op{i}: the dict returned by diagnose call op{j_} (client {ci_}) changed during a later "
+                          f"call", op=i)
+    if isinstance(res, dict):
+        _RETURNED.append((c, i, res, _canon_result(res)))
+        del _RETURNED[:-6]
     # (1) the diagnosed net is unchanged
     diffs, _ = oracles.diff_snapshot(snap, net)
     for dd in diffs[:3]:
@@ -395,7 +456,7 @@ def _exec_diagnose(d, m, c, net, op, i, ctx, global_hist, Probe):
                     continue
                 fn, args, _ = reg
                 want = want_kwargs if args is None else {a: want_kwargs.get(a) for a in args}
-                got = val["kwargs"]
+                got = {k_: v_ for k_, v_ in val["kwargs"].items() if k_ != "run"}
                 if oracles.canon(got) != oracles.canon({k: want[k] for k in sorted(want)}):
                     leaked = sorted(set(got) ^ set(want)) or \
                         sorted(k for k in want if oracles.canon(got.get(k)) != oracles.canon(want[k]))
@@ -408,8 +469,9 @@ def _exec_diagnose(d, m, c, net, op, i, ctx, global_hist, Probe):
     # catches state kept in Diagnostic instances or in (shared) diagnostic function objects
     try:
         ref_d = construct_from_fresh_objects(m.add_default, list(m.registrations), Probe)
-        rres = ref_d.diagnose_network(copy.deepcopy(net_before), report_style=None, **{**m.base_kwargs, **options})
-        fresh = {"result": oracles.canon(rres), "errors": sorted(ref_d.diag_errors)}
+        rres = ref_d.diagnose_network(copy.deepcopy(net_before), report_style=None,
+                                      **_call_kwargs({**m.base_kwargs, **options}, run_fail))
+        fresh = {"result": _canon_result(rres), "errors": sorted(ref_d.diag_errors)}
     except Exception as e:
         fresh = {"raised": type(e).__name__}
     if oracles.canon(live) != oracles.canon(fresh):
@@ -424,7 +486,7 @@ def _exec_diagnose(d, m, c, net, op, i, ctx, global_hist, Probe):
     hist_self = "/".join(m.hist[-3:]) or "-"
     hist_other = "/".join(sorted({w for cc, w in global_hist if cc != c})) or "-"
     if op.get("iso"):
-        iso = _isolated_call(m.add_default, list(m.registrations), net_before, options)
+        iso = _isolated_call(m.add_default, list(m.registrations), net_before, options, run_fail)
         ctx.probe("isolated_reference_ran")
         if "raised" in iso and iso["raised"] == "child-died":
             ctx.inconclusive += 1
